@@ -273,6 +273,13 @@ func cmapShapes(n int) []synthTable {
 		f12("group 0-0x10FFFF", 13, group12{0, 0x10FFFF, g}),
 		f12("group 0xFFFFFFF0-0xFFFFFFFF", 13, group12{0xFFFFFFF0, 0xFFFFFFFF, g}),
 		f12("group 0x7FFFFFF0-0x80000010 (sign change)", 12, group12{0x7FFFFFF0, 0x80000010, g}),
+		// a malformed group followed by a later, valid one
+		f12("group 0x10FF00-0xFFFFFFFF then 0x10FF80-0x10FF90", 12, group12{0x10FF00, 0xFFFFFFFF, g}, group12{0x10FF80, 0x10FF90, g}),
+		f12("group 0x10FF00-0xFFFFFFFF then 0x10FF80-0x10FF90", 13, group12{0x10FF00, 0xFFFFFFFF, g}, group12{0x10FF80, 0x10FF90, g}),
+		f12("group 0x41-0xFFFFFFFF then 0x61-0x7A", 12, group12{0x41, 0xFFFFFFFF, g}, group12{0x61, 0x7A, g}),
+		f12("group 0x110000-0x7FFFFFFF then 0x41-0x5A (unsorted)", 12, group12{0x110000, 0x7FFFFFFF, g}, group12{0x41, 0x5A, g}),
+		f12("group end < start then valid", 12, group12{0x5A, 0x41, g}, group12{0x61, 0x7A, g}),
+		f12("group 0x41-0x200000 then 0x10FFF0-0x10FFFF then 0x110000-0x110010", 13, group12{0x41, 0x200000, g}, group12{0x10FFF0, 0x10FFFF, g}, group12{0x110000, 0x110010, g}),
 		{"cmap6 first 0xFFF0 count 32 (crosses 0xFFFF)", "cmap", cmapTable(cmapSub{3, 1, cmap6(0xFFF0, 32, g)})},
 		{"cmap6 first 0xFFFF count 1", "cmap", cmapTable(cmapSub{3, 1, cmap6(0xFFFF, 1, g)})},
 		{"cmap6 first 0 count 0xFFFF", "cmap", cmapTable(cmapSub{0, 3, cmap6(0, 0xFFFF, g)})},
@@ -281,6 +288,47 @@ func cmapShapes(n int) []synthTable {
 		{"cmap10 first 0x7FFFFFF0 count 32", "cmap", cmapTable(cmapSub{3, 10, cmap10(0x7FFFFFF0, 32, g)})},
 		{"cmap14 default range 0x10FFF0 +255, non-default 0xFFFFFF", "cmap", cmapTable(cmapSub{0, 5, cmap14(0xFE00, [][2]int{{0x41, 3}, {0x10FFF0, 255}, {0xFFFFF0, 255}}, [][2]int{{0x42, g}, {0xFFFFFF, n + 5}})}, cmapSub{3, 1, base})},
 		{"cmap14 selector 0xFFFFFF, unsorted ranges", "cmap", cmapTable(cmapSub{0, 5, cmap14(0xFFFFFF, [][2]int{{0x50, 255}, {0x41, 255}}, [][2]int{{0x60, g}, {0x41, g}})}, cmapSub{3, 1, base})},
+	}
+	return out
+}
+
+// ---- GPOS single positioning with Device tables ----
+
+// gposDevices builds a GPOS table: script DFLT -> feature 'kern' -> one SinglePos format 1 lookup
+// covering every glyph, whose value record has the four placement / advance values and their four
+// Device tables, all with the given header (startSize, endSize, deltaFormat) and nWords delta words.
+func gposDevices(n, startSize, endSize, deltaFormat, nWords int) body {
+	var b body
+	b.u16(1, 0, 10, 30, 44)
+	// ScriptList @10: 1 script DFLT -> Script @+8: defaultLangSys @+4 ; LangSys: no required feature, feature 0
+	b.u16(1).raw('D', 'F', 'L', 'T').u16(8)
+	b.u16(4, 0)
+	b.u16(0, 0xFFFF, 1, 0)
+	// FeatureList @30: 1 feature 'kern' -> Feature @+8: no params, 1 lookup: 0
+	b.u16(1).raw('k', 'e', 'r', 'n').u16(8)
+	b.u16(0, 1, 0)
+	// LookupList @44: 1 lookup @+4: type 1, flag 0, 1 subtable @+8
+	b.u16(1, 4)
+	b.u16(1, 0, 1, 8)
+	// SinglePos format 1 @56: coverage @+22, valueFormat 0x00FF, value record (8 values), then coverage, then device
+	dev := 22 + 10
+	b.u16(1, 22, 0x00FF, 10, 20, 30, 40, dev, dev, dev, dev)
+	b.u16(2, 1, 0, n-1, 0) // coverage format 2: one range of all glyphs
+	b.u16(startSize, endSize, deltaFormat)
+	for i := 0; i < nWords; i++ {
+		b.u16(0x1234)
+	}
+	return b
+}
+
+func deviceShapes(n int) []synthTable {
+	var out []synthTable
+	for _, h := range [][4]int{
+		{12, 12, 1, 1}, {0, 0xFFFF, 1, 0}, {0, 0xFFFF, 2, 4}, {0, 0xFFFF, 3, 0}, {1, 0xFFFF, 1, 0}, {1, 0, 1, 0}, {0xFFFE, 0xFFFF, 1, 1},
+		{0xFFFF, 0xFFFF, 3, 1}, {0, 0, 2, 1}, {12, 11, 1, 1}, {0xFFFF, 0, 1, 1}, {8, 16, 1, 0}, {8, 16, 3, 4}, {12, 12, 0, 1}, {12, 12, 4, 1},
+		{0, 0xFFFF, 0x8000, 0}, {12, 12, 0xFFFF, 1}, {0, 7, 1, 1}, {0, 8, 1, 1}, {1, 0xFFFF, 3, 16},
+	} {
+		out = append(out, synthTable{fmt.Sprintf("GPOS SinglePos devices startSize=%d endSize=%d deltaFormat=%#x words=%d", h[0], h[1], h[2], h[3]), "GPOS", gposDevices(n, h[0], h[1], h[2], h[3])})
 	}
 	return out
 }
@@ -433,6 +481,8 @@ func TestPropSynth(t *testing.T) {
 	type cand struct {
 		fontInfo
 		cmap, victim tableRef
+		gpos         tableRef
+		hasGPOS      bool
 		hasVictim    bool
 		n            int
 	}
@@ -455,7 +505,8 @@ func TestPropSynth(t *testing.T) {
 			continue
 		}
 		c.cmap = cm
-		for _, v := range []string{"DSIG", "gasp", "prep", "fpgm", "cvt ", "FFTM", "GDEF", "name"} {
+		c.gpos, c.hasGPOS = has["GPOS"]
+		for _, v := range []string{"DSIG", "gasp", "prep", "fpgm", "cvt ", "FFTM", "name"} {
 			if tb, ok := has[v]; ok {
 				c.victim, c.hasVictim = tb, true
 				break
@@ -485,6 +536,7 @@ func TestPropSynth(t *testing.T) {
 		shapes := cmapShapes(f.n)
 		if f.hasVictim {
 			shapes = append(shapes, sbixShapes(f.n)...)
+			shapes = append(shapes, deviceShapes(f.n)...)
 		}
 		for _, sh := range shapes {
 			k++
@@ -492,8 +544,15 @@ func TestPropSynth(t *testing.T) {
 				continue
 			}
 			entry, tag := f.cmap, ""
-			if sh.tag == "sbix" {
+			switch sh.tag {
+			case "sbix":
 				entry, tag = f.victim, "sbix"
+			case "GPOS":
+				// the font's own GPOS entry if it has one, else the victim entry
+				entry, tag = f.victim, "GPOS"
+				if f.hasGPOS {
+					entry, tag = f.gpos, ""
+				}
 			}
 			c := Case{Font: f.Rel, Edits: installEdits(data, entry, tag, sh.b), Note: "synth:" + sh.name}
 			ev.Label("synth:" + sh.tag)
